@@ -16,9 +16,14 @@ var checks = map[string]func(*rules.Ctx){
 	"C02": rules.C02,
 	"C04": rules.C04,
 	"C05": rules.C05,
+	"C06": rules.C06,
+	"C08": rules.C08,
 	"C11": rules.C11,
 	"C12": rules.C12,
 	"C14": rules.C14,
+	"C16": rules.C16,
+	"C17": rules.C17,
+	"C18": rules.C18,
 }
 
 func main() {
